@@ -1,6 +1,7 @@
 import PcbV.Model.Play
 import PcbV.Lemmas.Play
 import PcbV.Lemmas.PlayTok
+import PcbV.Lemmas.PlayVoices
 /-
   C42 — PLAY emits the notes its music string specifies.
 
@@ -10,7 +11,7 @@ import PcbV.Lemmas.PlayTok
   note number `n` is index `n-1`, finding S3).
 -/
 namespace PcbV.C42
-open PcbV PcbV.Gen PcbV.Mml PcbV.Play
+open PcbV PcbV.Gen PcbV.Mml PcbV.Play PcbV.PlayVoices
 
 /-! ### one command: duration, gap, pause, N versus letter -/
 
@@ -183,6 +184,7 @@ def cmdMalformed : Cmd → Bool
   | .len k => decide (k < 1 ∨ k > 64)
   | .tempo k => decide (k < 32 ∨ k > 255)
   | .oct k => decide (k < 0 ∨ k > 6)
+  | .vol k => decide (k < -1 ∨ k > 15)
   | .note letter acc l d =>
     if letter == 80 && acc == 0 then (match l with | none => true | some 0 => decide (d > 0) | some _ => false)
     else (semitone letter acc).isNone
@@ -244,6 +246,10 @@ theorem malformed_cmd_iff (ps : PlayState) (cmd : Cmd) :
     · cases hs : semitone letter acc <;> simp
   | fill f => simp [cmdMalformed, apply]
   | fg b => simp [cmdMalformed, apply]
+  | vol k =>
+    constructor
+    · intro h; simp [cmdMalformed] at h; simp only [apply]; rw [if_neg (by omega)]
+    · intro h; simp [cmdMalformed] at h; simp only [apply]; rw [if_pos (by omega)]; exact ⟨_, rfl⟩
 
 /-- a numeric argument is missing: after blanks and an optional sign the text neither is a digit
     nor starts a variable reference with `=` -/
@@ -303,8 +309,13 @@ theorem mode_letter_ifc (env : Env) (r : Bytes)
 
 /-- malformed_ifc (lexical part): a string whose next command letter (after blanks and at most one
     `;`) is not a command letter raises Illegal function call. -/
-theorem unknown_letter_ifc (env : Env) (c : Nat) (r : Bytes) (h : commandLetters.contains c = false) :
+theorem unknown_letter_ifc (env : Env) (c : Nat) (r : Bytes) (h : commandLetters.contains c = false)
+    (hv : env.volumeCmd = false ∨ c ≠ 86) :
     parseLetter env c r = .error E.ifc := by
+  have hv' : (c == 86 && env.volumeCmd) = false := by
+    rcases hv with hv | hv
+    · simp [hv]
+    · simp [hv]
   simp [commandLetters] at h
   obtain ⟨h1, h2, h3, h4, h5, h6, h7, h8, h9, h10, h11, h12, h13, h14, h15, h16⟩ := h
   have hn : isNoteLetter c = false := by
@@ -312,9 +323,10 @@ theorem unknown_letter_ifc (env : Env) (c : Nat) (r : Bytes) (h : commandLetters
   simp [parseLetter, *]
 
 /-- the command starting with the (upper-cased) letter `c`, followed by `r`, is lexically malformed:
-    `c` is not a command letter, or N/L/T/O is not followed by a number, or M not by N, L, S, F, B -/
-def letterMalformed (c : Nat) (r : Bytes) : Bool :=
-  !commandLetters.contains c
+    `c` is not a command letter (`V` is one only with Tandy/PCjr sound: `vol`), or N/L/T/O is not
+    followed by a number, or M not by N, L, S, F, B -/
+def letterMalformed (vol : Bool) (c : Nat) (r : Bytes) : Bool :=
+  (!commandLetters.contains c && !(vol && c == 86))
   || ((c == 78 || c == 76 || c == 84 || c == 79) && numberMissing r)
   || (c == 77 && (match skipBlank r with
                   | [] => true
@@ -322,22 +334,26 @@ def letterMalformed (c : Nat) (r : Bytes) : Bool :=
 
 /-- the string continues (after blanks and at most one `;`) with a lexically malformed command;
     a `;` with nothing after it, and `;;`, are malformed too -/
-def lexMalformed (s : Bytes) : Bool :=
+def lexMalformed (vol : Bool) (s : Bytes) : Bool :=
   match skipBlank s with
   | [] => false
   | c :: r =>
     if c == 59 then
       match skipBlank r with
       | [] => true
-      | c1 :: r1 => letterMalformed (upper c1) r1
-    else letterMalformed (upper c) r
+      | c1 :: r1 => letterMalformed vol (upper c1) r1
+    else letterMalformed vol (upper c) r
 
-theorem letter_malformed_ifc (env : Env) (c : Nat) (r : Bytes) (h : letterMalformed c r = true) :
+theorem letter_malformed_ifc (env : Env) (c : Nat) (r : Bytes) (h : letterMalformed env.volumeCmd c r = true) :
     parseLetter env c r = .error E.ifc := by
   unfold letterMalformed at h
   simp only [Bool.or_eq_true, Bool.and_eq_true] at h
   rcases h with (h | ⟨hc, hn⟩) | ⟨hc, hm⟩
-  · exact unknown_letter_ifc env c r (by simpa using h)
+  · simp only [Bool.not_eq_true', Bool.and_eq_false_iff] at h
+    refine unknown_letter_ifc env c r h.1 ?_
+    rcases h.2 with h2 | h2
+    · exact Or.inl h2
+    · exact Or.inr (by simpa using h2)
   · exact missing_number_ifc env c r (by simp at hc; omega) hn
   · have hc' : c = 77 := by simpa using hc
     subst hc'
@@ -348,7 +364,7 @@ theorem letter_malformed_ifc (env : Env) (c : Nat) (r : Bytes) (h : letterMalfor
       rw [hsb] at hm
       exact Or.inr ⟨m, r1, rfl, by simpa using hm⟩
 
-theorem lex_malformed_ifc (env : Env) (s : Bytes) (h : lexMalformed s = true) :
+theorem lex_malformed_ifc (env : Env) (s : Bytes) (h : lexMalformed env.volumeCmd s = true) :
     parseCmd env s = .error E.ifc := by
   unfold lexMalformed at h
   unfold parseCmd
@@ -378,7 +394,7 @@ theorem lex_malformed_ifc (env : Env) (s : Bytes) (h : lexMalformed s = true) :
     and X commands; by correspondence these raise Illegal function call, Type mismatch, Subscript out
     of range or Syntax error as `MLParser` does. -/
 theorem malformed_ifc (lim : Limits) (env : Env) (fuel : Nat) (c : Cfg)
-    (h : lexMalformed c.rest = true ∨
+    (h : lexMalformed env.volumeCmd c.rest = true ∨
          (∃ cmd r, parseCmd env c.rest = .ok (some (cmd, r)) ∧ cmdMalformed cmd = true)) :
     run lim env (fuel + 1) c = ⟨c.ps, [], .err E.ifc⟩ := by
   have hstep : step lim env c = .fail E.ifc := by
@@ -393,10 +409,12 @@ theorem malformed_ifc (lim : Limits) (env : Env) (fuel : Nat) (c : Cfg)
   unfold run
   rw [hstep]
 
-example : lexMalformed [32, 59, 104] = true := by decide
-example : lexMalformed [78, 32, 67] = true := by decide
-example : lexMalformed [109, 120] = true := by decide
-example : lexMalformed [67, 59] = false := by decide
+example : lexMalformed false [32, 59, 104] = true := by decide
+example : lexMalformed false [78, 32, 67] = true := by decide
+example : lexMalformed false [109, 120] = true := by decide
+example : lexMalformed true [86, 49] = false := by decide
+example : lexMalformed false [86, 49] = true := by decide
+example : lexMalformed false [67, 59] = false := by decide
 example : cmdMalformed (.note 69 35 none 0) = true := by decide
 example : cmdMalformed (.n 85 0) = true := by decide
 
@@ -442,5 +460,70 @@ theorem nesting_bounded (lim : Limits) (env : Env) (c c' : Cfg) (evs : List Ev) 
   · split at h
     · cases h
     · injection h with h1 h2; subst h1; simpa using hl
+
+/-! ### three-voice PLAY (Tandy/PCjr): the voices are independent -/
+
+/-- voices_independent: in the three-voice PLAY, whatever the strings and states of the other
+    voices, the foreground flag, the point reached in the round-robin loop (`active`, `j`) and the
+    fuel, the tones emitted for voice `i` are exactly the tones of the first `k` commands of voice
+    `i`'s own string run alone from voice `i`'s own state (`strace`, a function of that voice's
+    configuration only), for some `k`; and voice `i` is left in the state that run reaches.  So a
+    state command (O, <, >, L, T, MN/ML/MS, V) in one voice cannot change a note of another. -/
+theorem voices_independent (lim : Limits) (env : Env) (fuel : Nat) (M : MCfg) (active : List Nat)
+    (j i : Nat) (hi : i < M.vs.length) :
+    ∃ k, ((mrun lim env fuel M active j).evs.filter (fun e => e.voice == i)
+            = (strace lim env k (M.vs.getD i default)).1.map (hwEv i)) ∧
+         setFg true ((mrun lim env fuel M active j).vs.getD i default)
+            = (strace lim env k (M.vs.getD i default)).2 ∧
+         (mrun lim env fuel M active j).vs.length = M.vs.length := by
+  induction fuel generalizing M active j with
+  | zero => exact ⟨0, by simp [mrun, strace]⟩
+  | succ f ih =>
+    unfold mrun
+    split
+    · exact ⟨0, by simp [strace]⟩
+    · split
+      · exact ih M active 0 hi
+      · dsimp only
+        split
+        · exact ih M _ _ hi
+        · exact ⟨0, by simp [strace]⟩
+        · rename_i c' evs hstep
+          generalize hv : active.getD j 0 = v at hstep
+          have hlen : i < (M.vs.set v c').length := by simpa using hi
+          obtain ⟨k, h1, h2, h3⟩ := ih ⟨M.vs.set v c', c'.ps.foreground⟩ active (j + 1) hlen
+          by_cases hvi : v = i
+          · subst hvi
+            have hget : (M.vs.set v c').getD v default = c' := by
+              simp [List.getD_eq_getElem?_getD, hi]
+            have hsim := step_setFg lim env M.fg (M.vs.getD v default)
+            rw [hstep] at hsim
+            cases hs2 : step lim env (setFg true (M.vs.getD v default)) with
+            | done => rw [hs2] at hsim; simp [StepSim] at hsim
+            | fail e => rw [hs2] at hsim; simp [StepSim] at hsim
+            | cont c'' evs' =>
+              rw [hs2] at hsim
+              obtain ⟨he, hc⟩ := hsim
+              subst he
+              have hst : strace lim env (k + 1) (M.vs.getD v default) =
+                  (evs ++ (strace lim env k c').1, (strace lim env k c').2) := by
+                simp only [strace, hs2]
+                rw [strace_congr lim env k c'' c' hc.symm]
+              refine ⟨k + 1, ?_, ?_, ?_⟩
+              · simp only [List.filter_append, filter_hw_same, h1, hget, hst, List.map_append]
+              · rw [h2, hget, hst]
+              · simpa using h3
+          · have hget : (M.vs.set v c').getD i default = M.vs.getD i default := by
+              simp [List.getD_eq_getElem?_getD, hvi]
+            refine ⟨k, ?_, ?_, ?_⟩
+            · simp only [List.filter_append, filter_hw_ne v i hvi, List.nil_append, h1, hget]
+            · rw [h2, hget]
+            · simpa using h3
+
+/-- `PLAY "O2C", "C"`: the first voice's octave command does not move the second voice
+    (index 24 = O2 C, index 48 = O4 C) -/
+example : ((mplay limits envSelf 20 [initState, initState, initState] true
+      [[79, 50, 67], [67], []]).evs.map (fun e => (e.voice, e.note))) = [(1, some 48), (0, some 24)] := by
+  decide
 
 end PcbV.C42
